@@ -218,6 +218,34 @@ pub fn main() -> i32 {
             println!("lib: {:?}", simple_dns::Packet::parse(&m).map(|p| crate::bridge::observe(&p)));
             0
         }
+        Some("dict") if args.get(2).map(|s| s.as_str()) == Some("--libfuzzer") => {
+            // the same dictionary in libFuzzer's -dict format: integers as big-endian byte strings, strings raw and as labels
+            let d = crate::gen::dict();
+            let esc = |b: &[u8]| -> String { b.iter().map(|c| format!("\\x{:02x}", c)).collect() };
+            let mut lines: std::collections::BTreeSet<String> = std::collections::BTreeSet::new();
+            for v in &d.ints {
+                if *v <= 0xff {
+                    lines.insert(esc(&[*v as u8]));
+                }
+                if *v <= 0xffff {
+                    lines.insert(esc(&(*v as u16).to_be_bytes()));
+                } else if *v <= 0xffff_ffff {
+                    lines.insert(esc(&(*v as u32).to_be_bytes()));
+                }
+            }
+            for s in &d.strs {
+                lines.insert(esc(s));
+                if s.len() <= 63 {
+                    let mut l = vec![s.len() as u8];
+                    l.extend_from_slice(s);
+                    lines.insert(esc(&l));
+                }
+            }
+            for l in lines {
+                println!("\"{}\"", l);
+            }
+            0
+        }
         Some("dict") => {
             let d = crate::gen::dict();
             println!("{} integers: {:?}", d.ints.len(), d.ints);
